@@ -72,6 +72,13 @@ func c03Body(c EngineCfg, id string, variant int) *quickfix.Message {
 			e.SetString(quickfix.Tag(80), fmt.Sprintf("%d", 10*(i+1)))
 		}
 		m.Body.SetGroup(g)
+	case 4: // Parties group as the LAST thing in the body (FIX.4.3+ NewOrderSingle: 453 -> 448,447,452)
+		g := quickfix.NewRepeatingGroup(quickfix.Tag(453), quickfix.GroupTemplate{quickfix.GroupElement(448), quickfix.GroupElement(447), quickfix.GroupElement(452)})
+		e := g.Add()
+		e.SetString(quickfix.Tag(448), "party-"+id)
+		e.SetString(quickfix.Tag(447), "D")
+		e.SetString(quickfix.Tag(452), "1")
+		m.Body.SetGroup(g)
 	case 2: // nested group (FIX.4.4 layout: NoAllocs -> NoNestedPartyIDs)
 		nested := quickfix.NewRepeatingGroup(quickfix.Tag(539), quickfix.GroupTemplate{quickfix.GroupElement(524), quickfix.GroupElement(525), quickfix.GroupElement(538)})
 		g := quickfix.NewRepeatingGroup(quickfix.Tag(78), quickfix.GroupTemplate{quickfix.GroupElement(79), nested, quickfix.GroupElement(80)})
@@ -100,6 +107,7 @@ func runC03(env *Env, tier string) {
 	c := DrawBaseCfg(env)
 	c.HeartBtInt = []int{30, 5}[ch.Choose("hb", 2)]
 	c.PersistOff = ch.Chance("persistoff", 1, 6)
+	c.TimestampPrecision = []string{"", "", "MICROS", "NANOS", "SECONDS"}[ch.Choose("precision", 5)]
 	dict := false
 	if ch.Chance("dict", 1, 4) {
 		// dictionaries for the versions whose NewOrderSingle the harness can build
@@ -131,7 +139,7 @@ func runC03(env *Env, tier string) {
 	}
 	maxVariant := 1
 	if !dict || c.BeginString == "FIX.4.4" {
-		maxVariant = 3
+		maxVariant = 4
 	}
 
 	// ---------------------------------------------------------------- phase 1: history
